@@ -361,7 +361,7 @@ package main
 (func "(*main.store).add"
   (props C17 C19)
   (requires has-dir (and (not (= (. s dir) nil)) (not (= (. s hooks) nil))))
-  (modifies sent.Notify fs.ent fs.dir fs.data fs.dsync fs.esync fs.next io.faults br.pos rnd now hm.msg)
+  (modifies sent.Notify fs.ent fs.dir fs.data fs.dsync fs.esync fs.next io.faults br.pos rnd now hm.msg agent.changes)
   (callsite "(*store.Dir).AddUser" 0
     (requires policy-accepted (policyok (. s policy) $2 $1))
     (requires arguments (and (= $0 (. s dir)) (= $1 username) (= $2 password) (= $3 isAdmin))))
@@ -372,12 +372,13 @@ package main
   (ensures accepted-is-not-refused (=> (policyok (. s policy) password username)
       (and (called "(*store.Dir).AddUser" 0) (= (. result err) (callresult "(*store.Dir).AddUser" 0 0)))))
   (ensures notified-iff-success (= sent.Notify (+ (old sent.Notify)
-      (ite (and (called "(*store.Dir).AddUser" 0) (= (. result err) nil)) 1 0)))))
+      (ite (and (called "(*store.Dir).AddUser" 0) (= (. result err) nil)) 1 0))))
+  (ensures every-change-is-notified (props C19) (= (- agent.changes sent.Notify) (old (- agent.changes sent.Notify)))))
 
 (func "(*main.store).update"
   (props C17 C19 C12)
   (requires has-dir (and (not (= (. s dir) nil)) (not (= (. s hooks) nil))))
-  (modifies sent.Notify fs.ent fs.dir fs.data fs.dsync fs.esync fs.next io.faults br.pos rnd now hm.msg)
+  (modifies sent.Notify fs.ent fs.dir fs.data fs.dsync fs.esync fs.next io.faults br.pos rnd now hm.msg agent.changes)
   (callsite "(*store.Dir).UpdateUser" 0
     (requires policy-accepted (policyok (. s policy) $2 $1))
     (requires arguments (and (= $0 (. s dir)) (= $1 username) (= $2 password))))
@@ -388,42 +389,46 @@ package main
   (ensures accepted-is-not-refused (=> (policyok (. s policy) password username)
       (and (called "(*store.Dir).UpdateUser" 0) (= (. result err) (callresult "(*store.Dir).UpdateUser" 0 0)))))
   (ensures notified-iff-success (= sent.Notify (+ (old sent.Notify)
-      (ite (and (called "(*store.Dir).UpdateUser" 0) (= (. result err) nil)) 1 0)))))
+      (ite (and (called "(*store.Dir).UpdateUser" 0) (= (. result err) nil)) 1 0))))
+  (ensures every-change-is-notified (props C19) (= (- agent.changes sent.Notify) (old (- agent.changes sent.Notify)))))
 
 (func "(*main.store).init"
   (props C17)
   (requires has-dir (not (= (. s dir) nil)))
-  (modifies fs.ent fs.dir fs.data fs.dsync fs.esync fs.next io.faults br.pos rnd now hm.msg rd.pos)
+  (modifies fs.ent fs.dir fs.data fs.dsync fs.esync fs.next io.faults br.pos rnd now hm.msg rd.pos agent.changes)
   (callsite "(*store.Dir).Init" 0
     (requires policy-accepted (policyok (. s policy) $2 $1))
     (requires arguments (and (= $0 (. s dir)) (= $1 username) (= $2 password))))
   (ensures refused-means-error-and-no-write (=> (not (policyok (. s policy) password username))
       (and (not (= (. result err) nil)) (not (called "(*store.Dir).Init" 0)))))
   (ensures accepted-is-not-refused (=> (policyok (. s policy) password username)
-      (and (called "(*store.Dir).Init" 0) (= (. result err) (callresult "(*store.Dir).Init" 0 0))))))
+      (and (called "(*store.Dir).Init" 0) (= (. result err) (callresult "(*store.Dir).Init" 0 0)))))
+  (ensures not-a-counted-change (props C19) (= agent.changes (old agent.changes))))
 
 (func "(*main.store).remove"
   (props C19)
   (requires has-dir (and (not (= (. s dir) nil)) (not (= (. s hooks) nil))))
-  (modifies sent.Notify fs.ent fs.dir fs.data fs.dsync fs.esync fs.next io.faults br.pos rnd now hm.msg)
+  (modifies sent.Notify fs.ent fs.dir fs.data fs.dsync fs.esync fs.next io.faults br.pos rnd now hm.msg agent.changes)
   (callsite "(*store.Dir).RemoveUser" 0 (requires arguments (and (= $0 (. s dir)) (= $1 username))))
-  (ensures notified (= sent.Notify (+ (old sent.Notify) 1))))
+  (ensures notified (= sent.Notify (+ (old sent.Notify) 1)))
+  (ensures every-change-is-notified (props C19) (= (- agent.changes sent.Notify) (old (- agent.changes sent.Notify)))))
 
 (func "(*main.store).setAdmin"
   (props C19)
   (requires has-dir (and (not (= (. s dir) nil)) (not (= (. s hooks) nil))))
-  (modifies sent.Notify fs.ent fs.dir fs.data fs.dsync fs.esync fs.next io.faults br.pos rnd now hm.msg)
+  (modifies sent.Notify fs.ent fs.dir fs.data fs.dsync fs.esync fs.next io.faults br.pos rnd now hm.msg agent.changes)
   (callsite "(*store.Dir).SetAdmin" 0 (requires arguments (and (= $0 (. s dir)) (= $1 username) (= $2 isAdmin))))
   (send "Notify" 0
     (requires only-after-success (and (called "(*store.Dir).SetAdmin" 0) (= (callresult "(*store.Dir).SetAdmin" 0 0) nil))))
   (ensures result-is-the-stores (= (. result err) (callresult "(*store.Dir).SetAdmin" 0 0)))
-  (ensures notified-iff-success (= sent.Notify (+ (old sent.Notify) (ite (= (. result err) nil) 1 0)))))
+  (ensures notified-iff-success (= sent.Notify (+ (old sent.Notify) (ite (= (. result err) nil) 1 0))))
+  (ensures every-change-is-notified (props C19) (= (- agent.changes sent.Notify) (old (- agent.changes sent.Notify)))))
 */
 
 /*@
 ; the answers are named by the call whose result they carry, not by their position in the select
 (func "(*main.store).dispatchRequests"
-  (props C04 C17 C18 C12)
+  (props C04 C17 C18 C12 C19)
   (requires complete (and (not (= (. s dir) nil)) (not (= (. s hooks) nil))))
   (noframe)
   (callsite "(*main.store).init" 0 (requires arguments-are-the-requests (and (= $0 s) (= $1 (. (local req) username)) (= $2 (. (local req) password)))))
@@ -442,7 +447,9 @@ package main
   (send "response" (of "(*main.store).listFull") (requires answers-with-this-requests-result (and (called "(*main.store).listFull" 0) (= $ch (. (local req) response)) (= (. $v list) (. (callresult "(*main.store).listFull" 0 0) list)) (= (. $v err) (. (callresult "(*main.store).listFull" 0 0) err)))))
   (callsite "(*main.store).authenticate" 0 (requires arguments-are-the-requests (and (= $0 s) (= $1 (. (local req) username)) (= $2 (. (local req) password)))))
   (send "response" (of "(*main.store).authenticate") (requires answers-with-this-requests-result (and (called "(*main.store).authenticate" 0) (= $ch (. (local req) response)) (= (. $v ok) (. (callresult "(*main.store).authenticate" 0 0) ok)) (= (. $v isAdmin) (. (callresult "(*main.store).authenticate" 0 0) isAdmin)) (= (. $v upgradeable) (. (callresult "(*main.store).authenticate" 0 0) upgradeable)) (= (. $v lastChanged) (. (callresult "(*main.store).authenticate" 0 0) lastChanged)) (= (. $v err) (. (callresult "(*main.store).authenticate" 0 0) err)))))
-  (loop 0 (invariant complete (and (not (= (. s dir) nil)) (not (= (. s hooks) nil))))))
+  (loop 0 (invariant complete (and (not (= (. s dir) nil)) (not (= (. s hooks) nil))))
+          ; whatever the dispatcher does to the store -- through the request methods or any helper -- is notified to the hooks caller
+          (invariant every-change-is-notified (props C19) (= (- agent.changes sent.Notify) (old (- agent.changes sent.Notify))))))
 
 (func "(*main.store).reload"
   (props C18 C19 C04 C12 C17)
